@@ -96,8 +96,23 @@ def refs_for(vars):
     return _refs_cache[k]
 
 
-def make_solver(cfg):
+_ghost_worlds = {}
+
+
+def make_solver(cfg, vars=None, world=None):
     import claripy
+    if cfg.get("ghost"):
+        # real SolverComposite over ghost (enumeration) children: vf/rtc/ghost.py
+        from . import ghost
+        if world is None:
+            world = ghost.World(vars)
+        track = bool((cfg.get("kwargs") or {}).get("track"))
+        if cfg["cls"] == "GhostChild":
+            s = ghost.GhostCompositeChild(world=world, track=track)         # the real child mixin stack itself
+        else:
+            s = claripy.SolverComposite(template_solver=ghost.GhostCompositeChild(world=world, track=track), track=track)
+        s._vf_world = world
+        return s
     cls = getattr(claripy, cfg["cls"])
     kw = dict(cfg.get("kwargs") or {})
     inner = kw.pop("actual", None)
@@ -144,7 +159,10 @@ class Run:
             self.refs = self.refs[:1]
         self.mode = cfg.get("mode", "exact")
         self.q = dict(cfg.get("q") or {})
-        self.solvers = [make_solver(cfg)]
+        self.solvers = [make_solver(cfg, vars)]
+        self.world = getattr(self.solvers[0], "_vf_world", None)
+        if self.world is not None:
+            self.world.solvers = self.solvers
         self.G = [frozenset()]
         self.meta = [{}]
         self.added = [[]]            # ASTs handed to add(), per solver (for C16 membership)
@@ -342,7 +360,7 @@ class Run:
             out = self._call(s.branch)
             newG = G
         elif op == "new":
-            out = self._call(make_solver, self.cfg)
+            out = self._call(make_solver, self.cfg, self.vars, self.world)
             newG = frozenset()
             meta = {}
             added = []
@@ -395,10 +413,31 @@ class Run:
         self.meta.append(meta)
         self.added.append(added)
         if check_equiv:
+            if op == "merge" and all(c == "TRUE" for c in st["conds"]):
+                # trivial merge conditions mention no variable: the listed finding about conditions over shared children does
+                # not apply, so a wrong model set here gets a label of its own
+                op = "merge[conditions-true]"
             f = self._equiv(i, on, op, out[1], newG)
             if f:
                 return [f]
         return []
+
+    def _ghost_mask(self, refmask):
+        """translate an EnumRef bit-set (assignment index = sum(value << offset), sorted names) into the ghost world's indexing
+        (itertools.product order over sorted names)"""
+        tr = getattr(self, "_tr", None)
+        if tr is None:
+            ref = next(r for r in self.refs if isinstance(r, oracle.EnumRef))
+            en = ref.en
+            tr = []
+            for ai, asg in enumerate(self.world.assignments):
+                tr.append(sum(v << en.off[n] for n, v in zip(self.world.names, asg)))
+            self._tr = tr
+        m = 0
+        for ai, ri in enumerate(tr):
+            if refmask >> ri & 1:
+                m |= 1 << ai
+        return m
 
     def _z3ref(self):
         for r in self.refs:
@@ -411,6 +450,23 @@ class Run:
     def _equiv(self, i, on, op, result, G):
         """documented meaning of merge/combine/split: Mod(result.constraints) == Mod(G), decided by z3 on
         claripy's own translation of result.constraints against the direct translation of the ghost."""
+        if self.world is not None:
+            # ghost runs: both sides by enumeration
+            m = self.world.ALL
+            for c in result.constraints:
+                m &= self.world.truth(c)
+            if getattr(result, "_unsat", False):
+                m = 0
+            ref = next(r for r in self.refs if isinstance(r, oracle.EnumRef))
+            want = ref.models(G)
+            self.checks += 1
+            if G:
+                self.nontrivial = True
+            if self._ghost_mask(want) != m:
+                qual = "+false" if "FALSE" in G else ""
+                return self._fail(i, on, f"{op}/model-set{qual}", [oracle.show_item(x) for x in _sorted_items(G)],
+                                  [str(c) for c in result.constraints], detail="model sets differ (enumeration)")
+            return None
         be = self.claripy.backends.z3
         try:
             terms = [be.convert(c) for c in result.constraints]
